@@ -774,6 +774,36 @@ func (x *Exec) evalCall(env *Env, e *Expr) (Val, error) {
 			return nil, err
 		}
 		return nftKey(args[0], args[1]), nil
+	case "svcfound", "svcstate": // what the service module answers for a request context id (expected keeper, A-MODSEP)
+		if err := need(1); err != nil {
+			return nil, err
+		}
+		ep := env.cur.get("svcEpoch")
+		if ep == nil && env.st != nil {
+			x.ghost(env.st, "svcEpoch", SInt)
+			if ep = env.cur.get("svcEpoch"); ep == nil {
+				ep = env.st.world.get("svcEpoch")
+			}
+		}
+		if ep == nil {
+			return nil, fmt.Errorf("%s: no service keeper in this unit", name)
+		}
+		if name == "svcfound" {
+			return UF("svc_ctx_found", SBool, ep, args[0]), nil
+		}
+		// the request context type of the service module, found among the imports of the loaded packages
+		for _, sp := range x.prog.ssaPkgs {
+			for _, imp := range sp.Pkg.Imports() {
+				if strings.HasSuffix(imp.Path(), "modules/service/exported") || strings.HasSuffix(imp.Path(), "modules/service/types") {
+					if o := imp.Scope().Lookup("RequestContext"); o != nil {
+						if ds := SortOf(o.Type()); ds != nil {
+							return FieldByName(UF("svc_ctx<"+ds.Name+">", ds, ep, args[0]), "State"), nil
+						}
+					}
+				}
+			}
+		}
+		return nil, fmt.Errorf("svcstate: request context type not found")
 	case "nftsof": // nftsof(class): the list of the tokens of a class as the x/nft keeper lists them (A-NFT)
 		if err := need(1); err != nil {
 			return nil, err
